@@ -46,7 +46,10 @@ theorem reopen_releases_all (tls : Bool) (ops : List SOp) :
     intro p hp
     have : s.reopen.cxes = [] := (reclose_closed s).2
     rw [this] at hp; cases hp
-  rw [openSocks_of_allClosed s.reopen hix hcx hr.gone]
+  have hax : s.reopen.axes = [] := by
+    show s.reclose.axes = []
+    unfold Server.reclose; simp only; split <;> rfl
+  rw [openSocks_of_allClosed s.reopen hax hix hcx hr.gone]
   have : s.reopen.curListen = some s.reclose.nextSid := rfl
   have hn : s.reclose.nextSid = s.nextSid := by unfold Server.reclose; simp only; split <;> rfl
   rw [this, hn]; rfl
@@ -62,8 +65,18 @@ theorem failed_open_leaves_nothing (tls : Bool) (ops : List SOp) :
     intro p hp
     have : s.reopenFail.cxes = [] := (reclose_closed s).2
     rw [this] at hp; cases hp
-  rw [openSocks_of_allClosed s.reopenFail (reclose_closed s).1 hcx hr.gone]
+  have hax : s.reopenFail.axes = [] := by
+    show s.reclose.axes = []
+    unfold Server.reclose; simp only; split <;> rfl
+  rw [openSocks_of_allClosed s.reopenFail hax (reclose_closed s).1 hcx hr.gone]
   rfl
+
+/-- `accept()` itself failing (EMFILE, ECONNABORTED …) in the middle of a pass: the sockets accepted before it wait in `.axes`
+(open, not yet remoters) and `close()` releases them too -/
+example : ((Server.start true).run [.conn ⟨1, [], [], [], false⟩, .conn ⟨2, [], [], [], false⟩, .afault 24, .conn ⟨3, [], [], [], false⟩, .svc]).openSocks
+      = [0, 1, 2] ∧
+    (((Server.start true).run [.conn ⟨1, [], [], [], false⟩, .conn ⟨2, [], [], [], false⟩, .afault 24, .conn ⟨3, [], [], [], false⟩, .svc]).close).openSocks
+      = [] := by decide
 
 /-- histories with failed opens: two failed re-opens, a good one, a peer, then close -/
 example : (((Server.start false).run [.reopenf, .reopenf, .reopen, .conn ⟨1, [], [], [], false⟩, .svc]).close).openSocks = [] ∧
